@@ -442,13 +442,14 @@ type fork struct {
 	top   int64   // height served for "latest"
 	bs    bool    // non-coalition validators carry bogus signatures instead of being absent
 	nvh   string  // self | canon : NextValidatorsHash of forged headers (lun, vs=coal)
+	ghost []int   // vs=coal: further validators (power 1 each) whose "signatures" are bogus bytes
 	cache map[int64]*types.LightBlock
 }
 
 func forkFromOp(o simcore.Op) *fork {
 	f := &fork{id: o.Int("id"), c: o.Int64("c"), shape: o.Str("shape"), keys: o.Ints("keys"), vs: o.Str("vs"),
 		extra: o.Int64("extra"), tmode: o.Str("tmode"), dt: o.Int64("dt"), rd: o.Int("rd"), top: o.Int64("top"),
-		bs: o.Bool("bs"), nvh: o.Str("nvh"), cache: map[int64]*types.LightBlock{}}
+		bs: o.Bool("bs"), nvh: o.Str("nvh"), ghost: o.Ints("ghost"), cache: map[int64]*types.LightBlock{}}
 	for _, p := range o.Ints("pw") {
 		f.pw = append(f.pw, int64(p))
 	}
@@ -467,10 +468,15 @@ func (f *fork) valid() bool {
 			return false
 		}
 	}
-	for _, k := range f.keys {
-		if k < 0 || k > 5000 {
+	seen := map[int]bool{}
+	for _, k := range append(append([]int{}, f.keys...), f.ghost...) {
+		if k < 0 || k > 5000 || seen[k] {
 			return false
 		}
+		seen[k] = true
+	}
+	if len(f.ghost) > 64 {
+		return false
 	}
 	return f.extra >= 0 && f.extra < 1<<40 && f.c >= 0
 }
@@ -535,6 +541,9 @@ func (f *fork) block(ch *chainData, h int64) *types.LightBlock {
 		if f.extra > 0 {
 			vals = append(vals, types.NewValidator(chaingen.Key(9000+f.id).PubKey(), f.extra))
 		}
+		for _, k := range f.ghost {
+			vals = append(vals, types.NewValidator(chaingen.Key(k).PubKey(), 1))
+		}
 		vset = types.NewValidatorSet(vals)
 		hdr.ValidatorsHash = vset.Hash()
 		if f.nvh != "canon" {
@@ -550,6 +559,12 @@ func (f *fork) block(ch *chainData, h int64) *types.LightBlock {
 	for _, k := range f.keys {
 		keyOf[string(chaingen.Key(k).PubKey().Address())] = k
 	}
+	isGhost := map[string]bool{}
+	if f.shape == "lun" && f.vs == "coal" {
+		for _, k := range f.ghost {
+			isGhost[string(chaingen.Key(k).PubKey().Address())] = true
+		}
+	}
 	for i, v := range vset.Validators {
 		k, in := keyOf[string(v.Address)]
 		ts := hdr.Time.Add(time.Second + time.Duration(i)*time.Millisecond)
@@ -562,7 +577,7 @@ func (f *fork) block(ch *chainData, h int64) *types.LightBlock {
 				panic(err)
 			}
 			commit.Signatures[i].Signature = sig
-		case f.bs:
+		case f.bs || isGhost[string(v.Address)]:
 			commit.Signatures = append(commit.Signatures, types.CommitSig{BlockIDFlag: types.BlockIDFlagCommit, ValidatorAddress: v.Address,
 				Timestamp: ts, Signature: detBytes(64, "bogus", f.id, h, i)})
 		default:
@@ -728,6 +743,22 @@ func drawFork(rng *simcore.RNG, ch *chainData, id int, ref int64, num, den int64
 			}
 			if rng.Bool(0.2) {
 				o["nvh"] = "canon"
+			}
+			if (class == "below" || class == "at" || class == "rand") && rng.Bool(0.4) {
+				// members of the reference set outside the coalition appear with forged signatures
+				in := map[int]bool{}
+				for _, k := range keys {
+					in[k] = true
+				}
+				var ghost []int
+				for _, v := range vals {
+					if k := ch.keyIdx[string(v.Address)]; !in[k] {
+						ghost = append(ghost, k)
+					}
+				}
+				if len(ghost) > 0 {
+					o["ghost"] = ghost
+				}
 			}
 		}
 	}
@@ -916,6 +947,7 @@ type reply struct {
 	reqH int64
 	blk  *binfo // nil when an error was returned
 	err  string
+	late bool // released after the client call had returned
 }
 
 type evRec struct {
@@ -941,6 +973,8 @@ type call struct {
 	cancelled bool
 	leadFork  int
 	stuck     int
+	returned  bool // the call has returned; witness requests still parked are answered late
+	drain     int
 }
 
 type sim struct {
@@ -1150,7 +1184,7 @@ func (s *sim) Next(rng *simcore.RNG) simcore.Op {
 			// the call is neither finished nor waiting for a provider: a witness routine sleeps
 			return simcore.Op{"a": "tick", "d": int64(2*s.drift+s.lag) + 1, "grow": rng.Intn(3)}
 		}
-		if s.cfg.Bool("cancel") && rng.Bool(0.02) {
+		if s.cfg.Bool("cancel") && rng.Bool(0.02) && !s.call.returned {
 			return simcore.Op{"a": "cancel"}
 		}
 		r := pend[rng.Intn(len(pend))]
@@ -1467,7 +1501,11 @@ func (s *sim) Apply(op simcore.Op) bool {
 		if !ok {
 			return false
 		}
-		rec := reply{prov: p, reqH: r.h}
+		rec := reply{prov: p, reqH: r.h, late: s.call.returned}
+		if s.call.returned {
+			s.call.drain++
+			e.Count("probe.late_reply")
+		}
 		if err != nil {
 			rec.err = err.Error()
 			e.Count("fault.err_" + op.Str("e"))
@@ -1515,7 +1553,7 @@ func (s *sim) Apply(op simcore.Op) bool {
 			}
 		}
 	case "cancel":
-		if s.call == nil || s.call.cancelled {
+		if s.call == nil || s.call.cancelled || s.call.returned {
 			return false
 		}
 		s.call.cancelled = true
@@ -1544,7 +1582,7 @@ func (s *sim) Apply(op simcore.Op) bool {
 		if !f.valid() || s.forks[f.id] != nil || len(s.forks) > 40 {
 			return false
 		}
-		for _, k := range f.keys {
+		for _, k := range append(append([]int{}, f.keys...), f.ghost...) {
 			if k >= s.ch.nkeys {
 				return false
 			}
@@ -1597,6 +1635,13 @@ func (s *sim) step() {
 	}
 	s.env.Logf("pend%s done=%v", sb.String(), s.callDone())
 	if s.callDone() {
+		// requests still parked when the call returns are answered late (bounded), then the
+		// oracles run over everything that was answered
+		c := s.call
+		if n := len(s.sortedPend()); n > 0 && !c.cancelled && c.kind != "init" && c.drain < 2*len(s.provs) {
+			c.returned = true
+			return
+		}
 		s.finishCall()
 	}
 }
@@ -2141,6 +2186,32 @@ func (s *sim) finishCall() {
 				}
 				e.Count("probe.attack_evidence_both_sides")
 				break
+			}
+		}
+	}
+
+	// 3b. an honest, fully stocked witness answered the target height with the canonical header
+	// (possibly after the call had already returned) while the client trusted another header
+	if target != nil && t0 != nil && !c.cancelled && prim == primAfter && c.retErr == nil && !target.canon && t0.canon && !sc.expired(t0) {
+		if b, ok := post[target.h]; ok && b.hash == target.hash && target.h <= s.ch.tip && s.ch.info[target.h].t.Before(c.now.Add(s.drift)) {
+			first := -1
+			for i, r := range c.replies {
+				if r.prov == prim || r.blk == nil || r.reqH != target.h || r.blk.hash == target.hash {
+					continue
+				}
+				if first < 0 {
+					first = i
+				}
+				pc := s.provCfgs[r.prov]
+				if pc.kind == "hon" && r.blk.canon && r.blk.h == target.h && pc.base <= t0.h {
+					sig := "attack-undetected"
+					if first < i {
+						sig = "attack-undetected-masked"
+					}
+					e.Fail("C09", sig, "call %s(h=%d): the client trusted the forged header %d (%s) from primary %d although the honest witness %d answered that height with the canonical header (late=%v) and holds the whole canonical chain from trusted height %d (replies: %s)",
+						c.kind, c.h, target.h, hx(target.hash), prim, r.prov, r.late, t0.h, replySummary(c, target.h))
+					break
+				}
 			}
 		}
 	}
